@@ -300,6 +300,12 @@ func (e *env) modOpts(prog []OptSpec) ([]mod.Opts, error) {
 			out = append(out, mod.WithConfigPlatform(p))
 		case "config-time":
 			out = append(out, mod.WithConfigTimestamp(e.optTime(o)))
+		case "time": // regctl --time
+			ot := e.optTime(o)
+			out = append(out, mod.WithConfigTimestamp(ot), mod.WithLayerTimestamp(ot))
+		case "time-max": // regctl --time-max
+			out = append(out, mod.WithConfigTimestamp(mod.OptTime{Set: unix(o.Set), After: unix(o.Set)}),
+				mod.WithLayerTimestamp(mod.OptTime{Set: unix(o.Set), After: unix(o.Set)}))
 		case "config-time-label":
 			out = append(out, mod.WithConfigTimestampFromLabel(o.FromLabel))
 		case "config-time-max":
